@@ -806,7 +806,35 @@ Qed.
 Lemma tracker_resp_InvM m peers : InvM m -> InvM (fst (handle_tracker_resp m peers)).
 Proof. intros I. unfold handle_tracker_resp. apply spawn_n_InvM. exact I. Qed.
 
-(* over every history of the manager from the start: producible commands of the tasks, newly accepted connections, the
+(* an accepted incoming connection: with the repair (an address that is still connected is not taken again) the entry is
+   fresh, starts choked and unassigned, and backs no reservation *)
+Lemma accept_InvM m a : InvM m -> InvM (fst (accept_peer_with true m a)).
+Proof.
+  intros I. unfold accept_peer_with. destruct (MAX_NOT_INTERESTED <=? _); [exact I|].
+  destruct (pget (m_peers m) a) eqn:Ep; cbn [andb fst]; [exact I|].
+  intros i n Hs. cbn [with_peer m_status m_peers] in *. rewrite cnt_pset_fresh by exact Ep.
+  rewrite (assigned_choked i (new_peer None (length (m_plens m))) eq_refl). cbn [b2n]. specialize (I i n Hs). lia.
+Qed.
+(* the pinned listener (no such check) is refuted: a second connection from the address of a peer that holds an
+   assignment replaces its entry -- the reservation is left with nobody behind it, and when the first connection's task
+   reports its piece the manager panics ("Piece downloaded but not requested") *)
+Definition dup_m : mgr :=
+  mkmgr [Reserved 1; Missing] [(7, mkpeer None [true; true] (Some 0) true true false false false None None)] [] 0 false [4; 4].
+Lemma accept_duplicate_refuted :
+  InvM dup_m /\ ~ InvM (fst (accept_peer_with false dup_m 7)) /\
+  mstep (fst (accept_peer_with false dup_m 7)) (CPieceDone 7) None = Panic /\
+  accept_peer_with true dup_m 7 = (dup_m, []).
+Proof.
+  split; [|split; [|split]].
+  - intros i n H. unfold dup_m in *. cbn [m_status m_peers] in *. unfold nthN in H.
+    destruct (N.to_nat i) as [|[|k]] eqn:E; cbn in H; try discriminate; [|destruct k; discriminate].
+    injection H as <-. assert (i = 0) by lia. subst i. vm_compute. split; discriminate.
+  - intros I. specialize (I 0 1 eq_refl). vm_compute in I. destruct I as [_ I]. apply I. reflexivity.
+  - vm_compute. reflexivity.
+  - vm_compute. reflexivity.
+Qed.
+
+(* over every history of the manager from the start: producible commands of the tasks, accepted incoming connections (spawn_peer_listener, repaired), the
    choke-rotation timer with any rate lists and optimistic picks, tracker answers with any peer lists *)
 Inductive mreach : mgr -> Prop :=
 | mreach_init st plens : (forall i n, nthN st i <> Some (Reserved n)) -> mreach (mkmgr st [] [] 0 false plens)
@@ -814,17 +842,19 @@ Inductive mreach : mgr -> Prop :=
     mreach (mkmgr (m_status m) (pset (m_peers m) a (new_peer id (length (m_plens m)))) (m_candidates m) (m_round m) (m_extracted m) (m_plens m))
 | mreach_step m c pick m' r bc sp : mreach m -> producible m c -> mstep m c pick = Ok (m', r, bc, sp) -> mreach m'
 | mreach_rotation m rates new_opt m' fl : mreach m -> change_conn_state m rates new_opt = Ok (m', fl) -> mreach m'
-| mreach_tracker m peers : mreach m -> mreach (fst (handle_tracker_resp m peers)).
+| mreach_tracker m peers : mreach m -> mreach (fst (handle_tracker_resp m peers))
+| mreach_accept m a : mreach m -> mreach (fst (accept_peer_with true m a)).
 
 Theorem reservation_invariant_reachable m : Peer_no_reserve_when_choked = true -> mreach m -> InvM m.
 Proof.
-  intros FR. induction 1 as [st plens H0|m a id _ IH Hf|m c pick m' r bc sp _ IH Hp Hs|m rates new_opt m' fl _ IH Hr|m peers _ IH].
+  intros FR. induction 1 as [st plens H0|m a id _ IH Hf|m c pick m' r bc sp _ IH Hp Hs|m rates new_opt m' fl _ IH Hr|m peers _ IH|m a _ IH].
   - intros i n H. exfalso. exact (H0 i n H).
   - intros i n H. cbn [m_status m_peers] in *. rewrite cnt_pset_fresh by exact Hf.
     rewrite (assigned_choked i (new_peer id (length (m_plens m))) eq_refl). cbn [b2n]. specialize (IH i n H). lia.
   - exact (reservation_invariant m c pick m' r bc sp FR IH Hp Hs).
   - exact (rotation_InvM m rates new_opt m' fl Hr IH).
   - exact (tracker_resp_InvM m peers IH).
+  - exact (accept_InvM m a IH).
 Qed.
 
 (* ---- C14: the choke rotation keeps the slot bound -------------------------------------------------- *)
